@@ -228,6 +228,8 @@ def load(reg):
 
     from contracts import _simstats_w
     _simstats_w.load_weighted(reg, AX, CBERR, ONRAISE, LISTENED, WARM, EV, CONTENT, ETY, SUB)
+    from contracts import _simstats_p
+    _simstats_p.load_persistent(reg, AX, CBERR, ONRAISE, LISTENED, WARM, EV, CONTENT, ETY, SUB)
 
     # ---------------------------------------------------------------- registration in the model; construction
     OS = "self._output_statistics"
@@ -244,22 +246,26 @@ def load(reg):
     MODEL = "asref(%s._model, 'DSOLModel')" % SIM
     HASMODEL = "not isnone(%s._model)" % SIM
     ARGS_OK = "isstr(key) and isstr(name) and instance(simulator, 'SimulatorInterface')"
+    ENDREP = "ReplicationInterface.END_REPLICATION_EVENT"
     for cls, base, INV in (("SimTally", "EventBasedTally", "TI"), ("SimCounter", "EventBasedCounter", "CI"),
-                           ("SimWeightedTally", "EventBasedWeightedTally", "WI")):
-        zero = {"TI": "self._n == 0", "CI": "self.g_cnt == 0 and self.g_sum == 0", "WI": "self._n == 0 and self.g_nz == 0"}[INV]
-        plain = {"TI": "Tally", "CI": "Counter", "WI": "WeightedTally"}[INV]
+                           ("SimWeightedTally", "EventBasedWeightedTally", "WI"),
+                           ("SimPersistent", "EventBasedTimestampWeightedTally", "TWI")):
+        zero = {"TI": "self._n == 0", "CI": "self.g_cnt == 0 and self.g_sum == 0", "WI": "self._n == 0 and self.g_nz == 0",
+                "TWI": "self._n == 0 and self._active and isnan(self._start_time)"}[INV]
+        plains = {"TI": ["Tally"], "CI": ["Counter"], "WI": ["WeightedTally"], "TWI": ["WeightedTally", "TimestampWeightedTally"]}[INV]
         ONLY_DATA = "forall('e:ref:EventType', inset(e, self._event_types) == (e == %s))" % (
-            "StatEvents.WEIGHT_DATA_EVENT" if INV == "WI" else DATA)
+            {"WI": "StatEvents.WEIGHT_DATA_EVENT", "TWI": "StatEvents.TIMESTAMP_DATA_EVENT"}.get(INV, DATA))
         pc = reg.contracts["EventProducer.__init__"]
         pc.for_classes = list(dict.fromkeys((pc.for_classes or ["EventProducer"]) + [base, cls]))
         # the plain constructor run on an event-producing subclass: its initialize() is the overriding one, which
         # announces INITIALIZED to the (at construction: no) listeners
-        reg.contract_variant(plain + ".__init__", [base, cls], params={"name": "obj"},
-                             requires=["PWF(self)", "map_empty(self._listeners)"],
-                             raises=[("TypeError", "not isstr(name)")], on_raise="any",
-                             ensures=["%s(self)" % INV, "PWF(self)", "map_empty(self._listeners)", zero],
-                             ghost_exit=list(reg.contracts[plain + ".__init__"].ghost_exit),
-                             modifies=["self.*"], props=C11, axiom_sets=AX)
+        for plain in plains:
+            reg.contract_variant(plain + ".__init__", [base, cls], params={"name": "obj"},
+                                 requires=["PWF(self)", "map_empty(self._listeners)"],
+                                 raises=[("TypeError", "not isstr(name)")], on_raise="any",
+                                 ensures=["%s(self)" % INV, "PWF(self)", "map_empty(self._listeners)", zero],
+                                 ghost_exit=list(reg.contracts[plain + ".__init__"].ghost_exit),
+                                 modifies=["self.*"], props=C11, axiom_sets=AX)
         reg.contract(base + ".__init__", params={"name": "obj"},
                      raises=[("TypeError", "not isstr(name)")], on_raise="any",
                      ensures=["%s(self)" % INV, "PWF(self)", "map_empty(self._listeners)", zero],
@@ -274,7 +280,10 @@ def load(reg):
                      on_raise="any",
                      ensures=["%s(self)" % INV, "PWF(self)", "map_empty(self._listeners)", zero, ONLY_DATA,
                               # subscribed to the simulator's warm-up notification
-                              "has(%s._listeners, %s) and contains(get(%s._listeners, %s), self)" % (SIM, WARM, SIM, WARM),
+                              "has(%s._listeners, %s) and contains(get(%s._listeners, %s), self)" % (SIM, WARM, SIM, WARM)] +
+                             # a persistent statistic also listens for the end of the replication (to close itself)
+                             (["has(%s._listeners, %s) and contains(get(%s._listeners, %s), self)" % (SIM, ENDREP, SIM, ENDREP)]
+                              if INV == "TWI" else []) + [
                               # retrievable from the model under its key
                               "implies(%s, has(%s._output_statistics, strval(key))"
                               " and get(%s._output_statistics, strval(key)) == self)" % (HASMODEL, MODEL, MODEL)],
